@@ -294,8 +294,15 @@ def expected_picture(pico_text, place):
         if el.tag in (ns + "linearGradient", ns + "radialGradient"):
             grads[el.get("id")] = el
 
+    def inherited_fill(el):
+        while el is not None:
+            if el.get("fill") is not None:
+                return el.get("fill")
+            el = el.getparent()
+        return "black"
+
     def fill_of(el, polys_src):
-        fill = el.get("fill", "black")
+        fill = inherited_fill(el)
         opacity = _num(el.get("opacity"), 1.0)
         if fill.startswith("url("):
             g = grads[re.match(r"url\(#(.+)\)", fill).group(1)]
@@ -587,13 +594,28 @@ def otsvg_picture(doc_text, gid, whole_document_to_font=None):
             m = max(m, anorm(t) * e + abs(t[4]) + abs(t[5]))
         return m
 
+    def from_ancestors(el):
+        """presentation attributes an element inherits from its ancestors (CSS inheritance: fill)"""
+        inh = {}
+        chain = []
+        p = el.getparent() if el is not None else None
+        while p is not None:
+            chain.append(p)
+            p = p.getparent()
+        for a in reversed(chain):
+            for k in ("fill",):
+                if a.get(k) is not None:
+                    inh[k] = a.get(k)
+        return inh
+
     if whole_document_to_font is not None:
         items = []
+        rootinh = {k: root.get(k) for k in ("fill",) if root.get(k) is not None}
         for ch in root:
-            items.extend(render(ch, ID, {}))
+            items.extend(render(ch, ID, rootinh))
         return items, problems
-    # transforms of ancestors of the glyph element apply too (nanoemoji puts none)
-    return render(gl[0], ID, {}), problems
+    # transforms of ancestors of the glyph element apply too (nanoemoji puts none); inherited paint does
+    return render(gl[0], ID, from_ancestors(gl[0])), problems
 
 
 # ------------------------------------------------------------------------------- compare
